@@ -291,7 +291,7 @@ func c05indexes(c *Ctx) {
 			key := sprintf("%s/insert:%s", fkey(fn), first)
 			ok := have["IsMatchable=T"]
 			if first == "allocatedOnNode" {
-				ok = ok && have["GetAllocatedPods>0=T"]
+				ok = ok && have["GetAllocatedPods>0"]
 			}
 			r.Check(ok, "PATH", key, c.InstrPos(e.Instr), "admitted under "+strings.Join(atoms, ","),
 				"a uid is put into "+first+" without the required tests (IsMatchable, and for allocatedOnNode GetAllocatedPods()>0); guards: "+strings.Join(atoms, ","))
@@ -328,9 +328,18 @@ func indexAtoms(gs []an.Guard) []string {
 			atoms = append(atoms, "IsMatchable="+t)
 			continue
 		}
-		if bo, ok := g.Cond.(*ssa.BinOp); ok {
-			if call, _ := an.ResultOfCall(bo.X); call != nil && an.ShortCallee(&call.Call) == "GetAllocatedPods" {
-				atoms = append(atoms, "GetAllocatedPods"+bo.Op.String()+an.Path(bo.Y)+"="+t)
+		if rel, ok := an.RelOf(g); ok {
+			if call, _ := an.ResultOfCall(rel.X); call != nil && an.ShortCallee(&call.Call) == "GetAllocatedPods" {
+				// canonical form: the relation that holds, with ">= 1" written "> 0" and "< 1" written "<= 0"
+				op, y := rel.Op, an.Path(rel.Y)
+				if k, isC := constIntOf(rel.Y); isC && k == 1 {
+					if op == token.GEQ {
+						op, y = token.GTR, "0"
+					} else if op == token.LSS {
+						op, y = token.LEQ, "0"
+					}
+				}
+				atoms = append(atoms, "GetAllocatedPods"+op.String()+y)
 				continue
 			}
 		}
